@@ -314,3 +314,40 @@ def shared_ids(tr, sig):
                 return ("channel id 0 was handed out", sig)
             live[n] = t[1]
     return None
+
+
+def queued_before_close(tr, sig):
+    """Single-threaded case files: every submission accepted (`send sent`) before the client's
+    Connection.Close was submitted happened before `close()` was called, so it is on the wire ahead of
+    the Close (nothing accepted is silently discarded)."""
+    import amqp
+    accepted, close_at = [], None
+    for k, (o, g) in enumerate(tr.al):
+        t = o.split()
+        if t[0] == "send" and len(t) >= 4 and t[2] == "close0" and any(l.startswith("send sent") for l in g):
+            close_at = k
+            break
+        if t[0] == "send" and len(t) >= 4 and t[2] == "send" and any(l.startswith("send sent") for l in g):
+            accepted.append(bytes.fromhex(t[3]))
+    if close_at is None or not accepted:
+        return None
+    # the run must have got as far as writing the Close
+    written = b""
+    for o, g in tr.al:
+        for l in g:
+            if l.startswith("wrote ") and l != "wrote -":
+                written += bytes.fromhex(l.split()[1])
+            elif l.startswith(("res err", "PANIC", "ABORT")):
+                return None
+    try:
+        frs, _rest = amqp.split_frames(written)
+    except ValueError:
+        return None
+    idx = next((i for i, (ft, ch, p) in enumerate(frs) if ft == 1 and ch == 0 and amqp.method_ids(p) == (10, 50)), None)
+    if idx is None:
+        return None
+    before = b"".join(amqp.frame(ft, ch, p) for ft, ch, p in frs[:idx])
+    missing = [a for a in accepted if a not in before]
+    if missing:
+        return ("%d submission(s) accepted before Connection::close was requested are not on the wire ahead of the Connection.Close (first: %s) - they were discarded without an error" % (len(missing), missing[0].hex()[:60]), sig)
+    return None
